@@ -175,4 +175,19 @@ CLAIMS = {
              "interpolated values and batching are not decided.",
         technique="who-may-write; CFG must-pass / definite assignment; guard analysis; unit inference; sibling interface completeness",
         ref="4/C09"),
+    "C10": dict(
+        text="Static analysis of structural necessary conditions of rule management: every rule a flipper or autofire installs "
+             "through the platform controller has its handle stored where disable() reads it, and disable clears each stored "
+             "handle and forgets them; each controller setter returns a HardwareRule listing every switch it configured on "
+             "the platform plus platform, driver settings, PSU switch-handler key and software EOS handler, and clear_hw_rule "
+             "releases all of these; enable/disable follow the flag protocol (no second install, rules and flag cleared only "
+             "when enabled, complete on every path), a software flip energises coils only when enabled and is released by "
+             "disable, an autofire/kickback hit has no effect at all while disabled (no hit counting, no self re-enable) and "
+             "every disable cancels a pending timeout re-enable; only flipper.py and autofire.py install/clear rules; "
+             "config_spec defaults: flippers and autofire coils enable exactly on ball_started, flippers/autofires/kickbacks "
+             "disable on ball_will_end and service_mode_entered; every X_events key of a device section has an event_X "
+             "method and disable outranks enable on the same event; a tilt always ends the ball. Equality of the platform's "
+             "rule table with the enabled set over histories and timeout timing are not decided.",
+        technique="handle-flow pairing; CFG guards/must-pass; who-may-call; config-spec table checks",
+        ref="4/C10"),
 }
